@@ -1,6 +1,9 @@
 import PyPhysim.Proofs.C13Models
 
 /-! # C13 — `which_distance(_dB)` against `calc_path_loss(_dB)` on the object level (α = ℝ) -/
+set_option linter.unnecessarySeqFocus false
+set_option linter.unusedTactic false
+set_option linter.unreachableTactic false
 namespace PyPhysim.C13
 open PyPhysim.Proto
 
@@ -106,12 +109,12 @@ theorem generalDb_anti {n C d₁ d₂ : ℝ} (hn : n < 0) (h₁ : 0 < d₁) (h :
 
 theorem ps7LosWhichDb_real (fc p : ℝ) :
     Gen.ps7LosWhichDb fc p = (10 : ℝ) ^ ((p - 46.8 - 20 * Real.logb 10 (fc / 1000 / 5)) / 18.7) := by
-  simp only [Gen.ps7LosWhichDb, log10_real, pow10_real]; norm_num
+  simp only [Gen.ps7LosWhichDb, log10_real, pow10_real] <;> gen_nf
 
 theorem ps7NlosWhichDb_real (fc p w : ℝ) :
     Gen.ps7NlosWhichDb fc p w
       = (10 : ℝ) ^ ((p - 43.8 - 20 * Real.logb 10 (fc / 1000 / 5) - 5 * (w - 1)) / 36.8) := by
-  simp only [Gen.ps7NlosWhichDb, log10_real, pow10_real]; norm_num
+  simp only [Gen.ps7NlosWhichDb, log10_real, pow10_real] <;> gen_nf
 
 theorem ps7_detWhich_pos (s : Ps7State ℝ) (nw : Nat) (p : ℝ) : 0 < s.detWhich nw p := by
   unfold Ps7State.detWhich
